@@ -62,7 +62,7 @@ class HHooks(Hooks):
             lv = sx.lvalue(node["args"][2])
             if lv[0] == "key":
                 sx.st[lv[1]] = Buf("g", {0: opaque("events", [sx._p(t), sx._p(y)])})
-            sx.log("events", t=t, y=y, node=node)
+            sx.log("events", t=t, y=y, yp=sx._p(y), node=node)
             return Poly.atom("unit")
         return NotImplemented
 
@@ -444,6 +444,118 @@ def r_teval_window(rep, hc):
         rep.inconc("R-TEVAL-WINDOW", "R-TEVAL-WINDOW:%s:floor" % hc.fn, "only %d interpolated sampling sites found" % n_sites)
     elif not problems:
         rep.ok("R-TEVAL-WINDOW", "R-TEVAL-WINDOW:%s" % hc.fn, "%d interpolated sampling site(s) over both directions, each under the direction-matched window test against xold" % n_sites)
+    rep.rule("R-WINDOW-MIRROR", "the path conditions of the k-th requested-time sample in the forward and in the backward run of the handler are mirror images (time points negated, tolerances unchanged)")
+    r_window_mirror(rep, hc)
+
+
+def r_window_mirror(rep, hc):
+    """time reflection of the sampling windows: in the forward-forced and the backward-forced run of the handler the k-th
+    t_eval sample is taken under path conditions that are mirror images of each other - every linear comparison of the
+    requested time T with the step ends (x, xold) in one direction appears in the other with all time points negated and the
+    tolerances unchanged (T <= x + tol  <->  T >= x - tol)."""
+    xoldn, xn = hc.pname[1], hc.pname[2]
+    TIME = {xoldn, xn}
+
+    def constraints(te):
+        tv = te["value"]
+        ta = tv.single_atom()
+        out = set()
+
+        def walk(cv, truth):
+            a = cv.single_atom() if isinstance(cv, Poly) else None
+            d = DEFS.get(a) if a else None
+            if not d:
+                return
+            if d[0] == "and" and truth:
+                for x_ in d[1]:
+                    walk(x_, True)
+                return
+            if d[0] == "or" and not truth:
+                for x_ in d[1]:
+                    walk(x_, False)
+                return
+            if d[0] == "not" and len(d[1]) == 1:
+                walk(d[1][0], not truth)
+                return
+            if d[0] not in ("ge", "gt", "le", "lt") or len(d[1]) != 2 or not all(isinstance(q, Poly) for q in d[1]):
+                return
+            op = d[0] if truth else {"ge": "lt", "gt": "le", "le": "gt", "lt": "ge"}[d[0]]
+            p_ = d[1][0] - d[1][1]
+            ct = p_.t.get(((ta, 1),), 0)
+            if ct == 0 or any(ta in [b for b, _ in m] and len(m) > 1 for m in p_.t):
+                return
+            if not (TIME & p_.atoms()):
+                return
+            # only plain linear forms in T, x, xold (nothing under abs / calls)
+            for m in p_.t:
+                for b, e in m:
+                    if b in TIME or b == ta:
+                        if len(m) != 1 or e != 1:
+                            return
+            if ct < 0:
+                p_ = -p_
+                op = {"ge": "le", "gt": "lt", "le": "ge", "lt": "gt"}[op]
+                ct = -ct
+            if ct != 1:
+                return
+            q = p_ - tv
+            out.add((op, q))
+        for node, branch, cv in te.get("pc", []):
+            walk(cv, branch == "then")
+        return out
+
+    def reflect(cs):
+        r = set()
+        for op, q in cs:
+            # T + q(x, xold) op 0   ->   -T + q(-x, -xold) op 0   ->   T - q(-x, -xold) op' 0
+            qq = q.subst({a_: -Poly.atom(a_) for a_ in TIME})
+            r.add(({"ge": "le", "gt": "lt", "le": "ge", "lt": "gt"}[op], -qq))
+        return r
+    sites = {}
+    for dirn in ("fwd", "bwd"):
+        sx = hc.dir_run(dirn)
+        sites[dirn] = [ev for nm, ev in hc.pushes_of(sx) if nm == "t" and is_teval_elem(ev["value"])]
+    key = "R-WINDOW-MIRROR:%s" % hc.fn
+    if len(sites["fwd"]) != len(sites["bwd"]) or not sites["fwd"]:
+        rep.inconc("R-WINDOW-MIRROR", key, "the forward run has %d t_eval sampling sites, the backward run %d" % (len(sites["fwd"]), len(sites["bwd"])))
+        return
+    n_cmp = 0
+    for k, (a, b) in enumerate(zip(sites["fwd"], sites["bwd"])):
+        ca, cb = constraints(a), constraints(b)
+        n_cmp += len(ca)
+        ra = reflect(ca)
+        if ra != cb:
+            only_f = sorted("T + %r %s 0" % (q, op) for op, q in ca if ({"ge": "le", "gt": "lt", "le": "ge", "lt": "gt"}[op], -q.subst({a_: -Poly.atom(a_) for a_ in TIME})) not in cb)
+            only_b = sorted("T + %r %s 0" % (q, op) for op, q in cb - ra)
+            rep.violation("R-WINDOW-MIRROR", key + ":site%d" % (k + 1), "the window of this requested-time sample is not symmetric under time reflection: forward run tests %s, backward run tests %s "
+                          "(a point accepted in one direction is dropped in the mirrored run)" % (only_f or "nothing more", only_b or "nothing more"), sp(a["node"]))
+            return
+    # the window is open beyond the step end: a requested time within half the handler's slack past x is still sampled
+    # (the last step of a run may land an ulp short of xend; with no slack a requested time equal to xend is dropped)
+    import pnum
+    n_slack = 0
+    for dirn, sgn in (("fwd", 1.0), ("bwd", -1.0)):
+        for k, te in enumerate(sites[dirn]):
+            for op, q in constraints(te):
+                if xn not in q.atoms():
+                    continue
+                env = {xn: 1.0, xoldn: 1.0 - 0.5 * sgn}
+                try:
+                    qv = pnum.value(q, env, lambda nm: 1e-3 if nm.startswith("self.") else None)
+                except pnum.NoEval:
+                    continue
+                tval = 1.0 + sgn * 0.5e-3
+                lhs = tval + qv
+                holds = {"ge": lhs >= 0, "gt": lhs > 0, "le": lhs <= 0, "lt": lhs < 0}[op]
+                n_slack += 1
+                if not holds:
+                    rep.violation("R-WINDOW-MIRROR", key + ":slack:%s" % dirn, "the %s window test `T + %r %s 0` rejects a requested time within the handler's own slack beyond the step end x: "
+                                  "when the final step lands an ulp short of xend, a requested time equal to xend is silently dropped" % ("forward" if sgn > 0 else "backward", q, op), sp(te["node"]))
+                    return
+    if n_cmp < 3 or n_slack < 2:
+        rep.inconc("R-WINDOW-MIRROR", key, "only %d window comparisons / %d step-end tests found" % (n_cmp, n_slack))
+    else:
+        rep.ok("R-WINDOW-MIRROR", key, "%d sampling site(s), %d window comparisons: forward and backward windows are mirror images" % (len(sites["fwd"]), n_cmp))
 
 
 def r_nextidx_mono(rep, hc):
@@ -1081,6 +1193,49 @@ def r_evt_args(rep, hc, cif=None):
         rep.violation("R-EVT-ONE", key, "; ".join(probs)[:500], sp(evs[0]["node"]))
     else:
         rep.ok("R-EVT-ONE", key, "crossed(prev_event[i], g(x, y)[i], direction_i): values in the order of integration")
+
+
+def r_evt_eval_pair(rep, hc):
+    """every evaluation of the user's event functions inside the handler is made at a consistent (time, state) pair: the
+    step end (x, y), or (t, interpolant(t)) for the SAME t - a root finder that evaluates g(t', y(t)) with t' != t solves a
+    different equation whenever g depends on time."""
+    key = "R-EVT-PAIR:%s" % hc.fn
+    calls = [ev for ev in hc.sx.trace if ev["kind"] == "events"]
+    if not calls:
+        rep.inconc("R-EVT-PAIR", key, "no evaluation of the event functions found in the symbolic trace")
+        return
+    xat, xoldat = Poly.atom(hc.pname[2]), Poly.atom(hc.pname[1])
+    bad = []
+    n_interp = 0
+    for ev in calls:
+        t, yp = ev["t"], ev.get("yp")
+        a = yp.single_atom() if isinstance(yp, Poly) else None
+        d = DEFS.get(a) if a else None
+        inner = d[1][0] if d and d[0] == "vec" and d[1] and isinstance(d[1][0], Poly) else None
+        ia = inner.single_atom() if inner is not None else None
+        di = DEFS.get(ia) if ia else None
+        if di and di[0] == "interp":
+            n_interp += 1
+            if di[1][0] != t:
+                bad.append((ev, "the event functions are evaluated at time %r with the interpolated state of time %r" % (t, di[1][0])))
+        elif isinstance(ev["y"], Buf) and ev["y"].name == hc.pname[3] or (a or "").startswith(("buf:" + hc.pname[3], "vec[" + hc.pname[3] + "@")):
+            if t != xat:
+                bad.append((ev, "the event functions are evaluated at time %r with the step-end state y(x)" % (t,)))
+        elif a and "yold" in a:
+            if t != xoldat:
+                bad.append((ev, "the event functions are evaluated at time %r with the previous state y(xold)" % (t,)))
+        else:
+            bad.append((ev, None))
+    firm = [(ev, m) for ev, m in bad if m]
+    if firm:
+        ev, m = firm[0]
+        rep.violation("R-EVT-PAIR", key, m, sp(ev["node"]))
+    elif bad:
+        rep.inconc("R-EVT-PAIR", key, "state argument %r of an event evaluation not understood" % (bad[0][0].get("yp"),), sp(bad[0][0]["node"]))
+    elif n_interp < 1:
+        rep.inconc("R-EVT-PAIR", key, "no event evaluation on an interpolated state found (root refinement not recognised)")
+    else:
+        rep.ok("R-EVT-PAIR", key, "%d evaluation(s) of the event functions, each at a consistent (time, state) pair (%d on interpolated states)" % (len(calls), n_interp))
 
 
 def time_types(hc):
